@@ -33,7 +33,8 @@ pub fn watchdog_secs() -> u64 { std::env::var("VERIF_WATCHDOG_S").ok().and_then(
 impl Tracer {
     pub fn call(&mut self, op: &str, args: Value) -> Value {
         *IN_FLIGHT.lock().unwrap_or_else(|e| e.into_inner()) = Some((std::time::Instant::now(), json!({"op": op, "args": args, "out": {"kind": "timeout"}}).to_string()));
-        let out = ops::exec(op, &args);
+        let out = std::panic::catch_unwind(std::panic::AssertUnwindSafe(|| ops::exec(op, &args)))
+            .unwrap_or_else(|p| json!({"kind": "harness-error", "what": p.downcast_ref::<String>().cloned().or_else(|| p.downcast_ref::<&str>().map(|s| s.to_string())).unwrap_or_default()}));
         *IN_FLIGHT.lock().unwrap_or_else(|e| e.into_inner()) = None;
         writeln!(self.f, "{}", json!({"op": op, "args": args, "out": out})).unwrap();
         self.n += 1;
